@@ -154,6 +154,11 @@ def dump_scalar(scalar, version=LATEST_VER):
             isinstance(scalar, int):
         return dump_decimal(scalar, version=version)
     elif isinstance(scalar, Grid):
+        # Forbid version 2.0 and earlier.
+        if version < VER_3_0:
+            raise ValueError('Project Haystack version %s ' \
+                             'does not support nested grids' \
+                             % version)
         return "<<" + dump_grid(scalar) + ">>"
     else:
         raise NotImplementedError('Unhandled case: %r' % scalar)
@@ -190,6 +195,11 @@ def dump_bin(bin_value, version=LATEST_VER):
 
 
 def dump_xstr(xstr_value, version=LATEST_VER):
+    # Forbid version 2.0 and earlier.
+    if version < VER_3_0:
+        raise ValueError('Project Haystack version %s ' \
+                         'does not support XStr' \
+                         % version)
     # The payload is a ZINC string: it needs the same escaping.
     return '%s(%s)' % (xstr_value.encoding,
                        dump_str(xstr_value.data_to_string(), version=version))
